@@ -31,7 +31,13 @@ func RunSelf(env []string, timeout time.Duration) ChildResult {
 
 // RunCmd runs a command with a wall-clock watchdog and returns its output and resource usage.
 func RunCmd(bin string, args []string, env []string, stdin []byte, timeout time.Duration) ChildResult {
+	return RunCmdDir(bin, args, "", env, stdin, timeout)
+}
+
+// RunCmdDir is RunCmd with a working directory.
+func RunCmdDir(bin string, args []string, dir string, env []string, stdin []byte, timeout time.Duration) ChildResult {
 	cmd := exec.Command(bin, args...)
+	cmd.Dir = dir
 	cmd.Env = append(os.Environ(), env...)
 	var so, se bytes.Buffer
 	cmd.Stdout = &so
